@@ -203,3 +203,26 @@ def join_kinds(e0: int, bt: int, bo: int, keep: bool) -> bool:
     t1 = build(["N", "CA", "C", "O"], ["ALA", "GLY", "HOH"], ["", "X", ""], ["A", "B"], [1, 2, 3, 4], [1, 2, 3], [1, 0, 0, 2], [1, 2, 0, 0], [1, 2, 0, 0])
     t2 = build(["N", "CB", "CA", "O"], ["SER", "GLY", "HOH"], ["", "", "S2"], ["C", "D"], [5, 12, 7, 7], [4, 9, 9], [e0, 0, 0, (e0 + 1) % 6], [bt, 1, 0, (bt + 2) % 6], [bo, 0, 1, (bo + 1) % 4])
     return _check_join(t1, t2, keep)
+
+
+def join_independent(which: int, op: int, idx: int, keep: bool) -> bool:
+    """
+    pre: 0 <= which <= 2 and 0 <= op <= 2 and 0 <= idx <= 3
+    post: __return__
+    """
+    which, op, idx = conc(which, 0, 2), conc(op, 0, 2), conc(idx, 0, 3)
+    full = lambda: build(["N", "CA", "C", "O"], ["ALA", "GLY", "HOH"], ["", "X", ""], ["A", "B"], [1, 2, 3, 4], [1, 2, 3], [1, 0, 0, 2], [1, 2, 0, 0], [1, 2, 0, 0])
+    t1 = Topology() if which == 1 else full()          # which: 0 both non-empty, 1 empty left operand, 2 empty right operand
+    t2 = Topology() if which == 2 else full()
+    b1, b2 = snapshot(t1), snapshot(t2)
+    j = t1.join(t2, keep_resSeq=True if which == 1 else keep)
+    if j is t1 or j is t2 or not wellformed(j):
+        return False
+    # the result is a new object: editing it must leave both operands exactly as they were
+    if op == 0:
+        j.insert_atom("H", _el.hydrogen, j.residue(0), index=idx, rindex=0)
+    elif op == 1:
+        j.delete_atom_by_index(idx)
+    else:
+        j.add_bond(j.atom(1), j.atom(3))
+    return snapshot(t1) == b1 and snapshot(t2) == b2 and own_bonds(t1) and own_bonds(t2)
